@@ -36,7 +36,8 @@ type tapCase struct {
 	CodeSep  bool       `json:"codesep"`      // OP_CODESEPARATOR after them
 	Nodes    []string   `json:"nodes"`        // merkle path (script path) / merkle root (key path, at most one)
 	Annex    *string    `json:"annex"`
-	Sig64    bool       `json:"sig64"` // 64-byte signature (implicit SIGHASH_DEFAULT)
+	LeafLen  int        `json:"leaf_len,omitempty"` // script path: the leaf script is padded with trailing OP_NOPs to this length
+	Sig64    bool       `json:"sig64"`              // 64-byte signature (implicit SIGHASH_DEFAULT)
 	HashType byte       `json:"hash_type"`
 	Aux      uint64     `json:"aux"`
 	Flags    uint32     `json:"flags"`
@@ -174,6 +175,9 @@ func buildTap(c tapCase) (*tapBuilt, error) {
 		default:
 			ls = append(append(ls, 0x00, 0x20), lk.xonly...)
 			ls = append(ls, 0xba)
+		}
+		for len(ls) < c.LeafLen {
+			ls = append(ls, 0x61) // trailing OP_NOPs (tapscript has neither a size nor an opcode-count limit)
 		}
 		lh := sighash.TapLeafHash(0xc0, ls)
 		b.leaf = lh[:]
@@ -349,10 +353,13 @@ func genTap(t *rapid.T) tapCase {
 		c.Nodes = append(c.Nodes, hx(fill(rapid.Uint64().Draw(t, "node"), 32)))
 	}
 	if rapid.IntRange(0, 2).Draw(t, "has_annex") == 0 {
-		a := fill(rapid.Uint64().Draw(t, "annex_seed"), rapid.SampledFrom([]int{1, 2, 40, 252, 253, 400}).Draw(t, "annex_len"))
+		a := fill(rapid.Uint64().Draw(t, "annex_seed"), rapid.SampledFrom([]int{1, 2, 40, 400, 1, 2, 40, 400, 252, 253, 254, 65534, 65535, 65536, 65537}).Draw(t, "annex_len"))
 		a[0] = 0x50
 		s := hx(a)
 		c.Annex = &s
+	}
+	if !c.KeyPath && rapid.IntRange(0, 5).Draw(t, "leaf_boundary") == 0 {
+		c.LeafLen = rapid.SampledFrom(boundarySizes).Draw(t, "leaf_len")
 	}
 	switch rapid.IntRange(0, 9).Draw(t, "ht_band") {
 	case 0:
@@ -389,6 +396,14 @@ func TestTaprootSpend(t *testing.T) {
 		}
 		if c.Annex != nil {
 			r.Class("annex")
+			if n := len(*c.Annex) / 2; n >= 252 && n <= 254 || n >= 65534 {
+				r.Class(fmt.Sprintf("boundary/annex_len=%d", n))
+				r.Class("compactsize_boundary")
+			}
+		}
+		if c.LeafLen > 0 {
+			r.Class(fmt.Sprintf("boundary/leaf_script_len=%d", c.LeafLen))
+			r.Class("compactsize_boundary")
 		}
 		r.NonTrivial()
 		class, err := checkTap(c)
